@@ -17,6 +17,9 @@ Line protocol of C03 (parsing / printing only; every computed value comes from `
   rint <f32bits,…>                               → ok <f32bits,…>
   subset <c,…>                                   → ok <string> <parsed,…>
   kept <ns> <w>                                  → ok n=<count> <indices written, in order, printed as runs a-b>
+  subsetx <c,…>                                  → ok <string> colon=<0|1> <parsed,…>     (text rendered by `Split.renderToks`)
+  chans <nc> <nsync> <smap>                      → ok key=<sh> letter=<code> chns=<c,…> ;; …      (`Split.prepAll`)
+  steps <ns> <w> <napch> <isync>                 → ok n=<rows appended> runs=<a-b,…> win=<iw:first:last:kept,…>  (`Split.apSteps`)
 -/
 
 structure St where
@@ -39,12 +42,6 @@ def matOf (dat : Array (Array Int)) : Mat := fun t c => (dat.getD t #[]).getD c 
 
 def reshape (ns nc : Nat) (vals : Array Int) : Array (Array Int) :=
   (Array.range ns).map fun t => vals.extract (t * nc) (t * nc + nc)
-
-def renderGrp : Grp → String
-  | .range a b => s!"{a}:{b}"
-  | .single a => s!"{a}"
-
-def renderToks (t : List Grp) : String := ",".intercalate (t.map renderGrp)
 
 def parseGrp (s : String) : Option Grp :=
   match s.splitOn ":" with
@@ -162,6 +159,32 @@ def step (st : St) (t : List String) : St × String :=
       | .error e => (st, errStr e)
       | .ok tk => (st, s!"ok {renderToks tk} {showList (parseToks tk)}")
     | none => (st, "bad-op")
+  | ["subsetx", cs] =>
+    match natList? cs with
+    | some cs =>
+      match subsetToks cs with
+      | .error e => (st, errStr e)
+      | .ok tk => (st, s!"ok {renderToks tk} colon={if (renderToks tk).toList.contains ':' then 1 else 0} {showList (parseToks tk)}")
+    | none => (st, "bad-op")
+  | ["chans", nc, nsync, smap] =>
+    match nat? nc, nat? nsync, natList? smap with
+    | some nc, some nsync, some smap =>
+      (st, "ok " ++ " ;; ".intercalate ((prepAll smap nc nsync).map fun p => s!"key={p.key} letter={p.letter} chns={showList p.chns}"))
+    | _, _, _ => (st, "bad-op")
+  | ["steps", ns, w, napch, isync] =>
+    match nat? ns, nat? w, nat? napch, nat? isync with
+    | some ns, some w, some napch, some isync =>
+      if w ≤ OV then (st, errStr .diverges) else
+      let steps := apSteps ns w OV napch isync
+      let rows := apAppended w TAPER (nwin ns w OV) 0 steps
+      let wins := (firstlast ns w OV).zipIdx.map fun (fl, iw) =>
+        s!"{iw}:{fl.1}:{fl.2}:{(keptRows w TAPER (nwin ns w OV) iw fl).length}"
+      let reads := steps.filterMap fun
+        | .readAp f l n => some s!"ap:{f}:{l}:{n}"
+        | .readSync f l c => some s!"sy:{f}:{l}:{c}"
+        | _ => none
+      (st, s!"ok n={rows.length} runs={showRuns rows} win={",".intercalate wins} reads={",".intercalate reads}")
+    | _, _, _, _ => (st, "bad-op")
   | ["kept", ns, w] =>
     match nat? ns, nat? w with
     | some ns, some w =>
